@@ -2,7 +2,7 @@
    PARTIAL: proved are (e) validation never drops a diagnostic and (d') a fatal parse error always leaves an Error and
    no tree.  "Exactly when well-formed" needs a grammar-level model of the parser; the check compares the implementation
    with the table-driven model (exact) and with documents whose (mal)formedness is known by construction. *)
-From AidlV Require Import Spec.Master Proofs.Master Proofs.Totality Model.LrDriver Proofs.Typing Proofs.Keywords Proofs.DriverSafe.
+From AidlV Require Import Spec.Master Proofs.Master Proofs.Totality Model.LrDriver Proofs.Typing Proofs.Keywords Proofs.DriverSafe Proofs.Grammar.
 
 Theorem C03_kept : forall defined a ds0 a' ds d,
   validate_file defined a ds0 = Ok (a', ds) -> In d ds0 -> In d ds.
@@ -65,6 +65,38 @@ Theorem C03_no_silent_failure : forall cx, length (cx_lc cx) = S (length (cx_src
   forall id fr, add_content cx id = Added fr -> fr_ast fr = None -> exists d, In d (fr_diags fr) /\ d_kind d = DError.
 Proof. exact add_content_loud. Qed.
 Print Assumptions C03_no_silent_failure.
+
+(* (a), one direction, against the grammar itself.  `der` is derivability in the regenerated grammar -- the 209 productions
+   lalrpop built the tables from (Gen/LrTables.v: gen_productions, gen_prod_rhs), terminals = lexer columns -- and
+   `lexes_to_eof` is the token sequence of the text.  A stored result WITHOUT an Error diagnostic means that the text's token
+   sequence is derivable from the start symbol: the run never entered error recovery (recovery leaves an error symbol on
+   the stack or an Error behind, and the accept state cannot be reached with either), and a recovery-free LR run is a
+   rightmost derivation in reverse. *)
+Theorem C03_no_error_means_wellformed : forall cx, length (cx_lc cx) = S (length (cx_src cx)) ->
+  forall id fr, add_content cx id = Added fr -> (forall d, In d (fr_diags fr) -> d_kind d <> DError) ->
+  exists l, lexes_to_eof (cx_src cx, 0%N) l /\ der start_sym l.
+Proof. exact no_error_means_wellformed. Qed.
+Print Assumptions C03_no_error_means_wellformed.
+
+(* ... so a malformed document -- one whose token sequence is not derivable -- always gets at least one Error *)
+Theorem C03_malformed_is_loud : forall cx, length (cx_lc cx) = S (length (cx_src cx)) ->
+  forall id fr, add_content cx id = Added fr ->
+  (forall l, lexes_to_eof (cx_src cx, 0%N) l -> ~ der start_sym l) ->
+  exists d, In d (fr_diags fr) /\ d_kind d = DError.
+Proof. exact malformed_is_loud. Qed.
+Print Assumptions C03_malformed_is_loud.
+
+(* non-vacuity: the start symbol is the nonterminal of OptAidl, and a concrete document is derivable *)
+Example C03_ex_start : start_sym = SNT 54 /\ nth (N.to_nat accept_prod) gen_production_text ""%string = "__OptAidl = OptAidl"%string.
+Proof. vm_compute. split; reflexivity. Qed.
+Example C03_ex_derivable :
+  exists l, lexes_to_eof (lit "package p; interface I { void f(in int x); }", 0%N) l /\ der start_sym l.
+Proof.
+  pose (src := lit "package p; interface I { void f(in int x); }").
+  pose (cx := Ctx src (map (fun i => (1, N.of_nat i + 1)%N) (seq 0 (S (length src))))).
+  assert (A : exists a, add_content cx (lit "f") = Added (FR (lit "f") (Some a) [])) by (vm_compute; eexists; reflexivity).
+  destruct A as [a A]. apply (no_error_means_wellformed cx eq_refl (lit "f") _ A). intros d [].
+Qed.
 
 (* the full statement of (d), kept visible: the theorem above is it, for the line/column tables the harness supplies *)
 Definition C03_full : Prop :=
